@@ -73,6 +73,10 @@ def normalize(events, result=None, max_image=40000):
             if ev == "seg2" and (e["code_len"] > max_image or e["eeprom_len"] > max_image):
                 return None
             out.append(dict(e))
+        elif ev in ("rbegin", "rend"):
+            out.append({"ev": ev})
+        elif ev in ("rline", "sline", "mline"):
+            out.append({"ev": ev, "ln": e.get("ln", 0), "cls": e.get("cls", "other"), "taken": e.get("taken", -1)})
     if result is not None:
         out.append({"ev": "end", "r": result})
     return out
@@ -100,6 +104,20 @@ def corrupt_stream(evs):
             e["bytes"][1] ^= 0x80
             break
     outs.append(c)
+    # reader events: a line of a selected branch reported as passed over; a condition reported with the other outcome
+    d = copy.deepcopy(evs)
+    for e in d:
+        if e["ev"] == "rline" and e["cls"] == "other":
+            e["ev"] = "sline"
+            outs.append(d)
+            break
+    f = copy.deepcopy(evs)
+    for i, e in enumerate(f):
+        if e["ev"] == "rline" and e["cls"] in ("if", "ifdef", "ifndef") and e["taken"] in (0, 1) and \
+                any(x["ev"] in ("rline", "sline") and x["cls"] == "other" for x in f[i + 1:i + 3]):
+            e["taken"] = 1 - e["taken"]
+            outs.append(f)
+            break
     return outs
 
 
@@ -121,8 +139,8 @@ def validate_builds(jobs, scratch, label="builds"):
 
 def validate_streams(streams, owners, scratch, label, skipped=0):
     # binding self-test on the first stream that has an emitted instruction
-    base = next((s for s in streams if any(e["ev"] == "item2" and e["k"] == "instr" and e.get("bytes") for e in s)
-                 and any(e["ev"] == "pass1" for e in s)), None)
+    good = [s for s in streams if any(e["ev"] == "item2" and e["k"] == "instr" and e.get("bytes") for e in s) and any(e["ev"] == "pass1" for e in s)]
+    base = next((s for s in good if any(e["ev"] == "rline" and e["cls"] in ("if", "ifdef", "ifndef") for e in s)), good[0] if good else None)
     canaries = corrupt_stream(base) if base else []
     chunks, index, cur, curidx = [], [], [], []
     for si, s in enumerate(streams + canaries):
@@ -197,11 +215,19 @@ def suite_streams(scratch):
                 except ValueError:
                     pass
     # cut into streams at every pass1 event (a pass2 without pass1 before it starts a stream of its own)
-    streams, cur = [], []
+    # (the reader events of a build come first: a new stream also starts at the first outermost `rbegin` after a pass event)
+    streams, cur, depth, passed = [], [], 0, False
     for e in events:
-        if e.get("ev") == "pass1" and cur:
+        ev = e.get("ev")
+        if cur and passed and (ev == "pass1" or (ev == "rbegin" and depth == 0)):
             streams.append(cur)
-            cur = []
+            cur, passed = [], False
+        if ev == "rbegin":
+            depth += 1
+        elif ev == "rend":
+            depth = max(0, depth - 1)
+        elif ev in ("pass1", "pass2", "limits"):
+            passed = True
         cur.append(e)
     if cur:
         streams.append(cur)
